@@ -19,6 +19,19 @@ CLAIMED = {
         technique="TLA+ transcription model-checked exhaustively with TLC; plan equality replay + trace validation of real plans",
     ),
 }
+CLAIMED["C02"] = dict(
+    category="model_checking",
+    text="Lang.tla defines the output stream of a core-language program (call-by-value, one state cell per call-tree "
+         "position) independently of the compiler. LangGen.tla makes TLC enumerate every well-typed function body up to a "
+         "token budget over the enabled productions; each is evaluated in TLA+ and replayed on the VM and the WASM runtime, "
+         "sample by sample. Larger seeded random programs are run on the VM and their recorded runs are validated by "
+         "LangTrace.tla (one Sample action per recorded sample).",
+    design_ref="DESIGN.md §6 C02",
+    note="Integer-valued fragment only (values compared by value, -0.0 = 0). Clean-fragment switches exclude constructs with "
+         "pinned findings (stateful calls in if arms / lambdas, projection as function result, if inside tuple literals). "
+         "Trusted: TLC, lib/printer.py, the JSON codec.",
+    technique="TLA+ definitional evaluator + TLC-enumerated programs replayed on the real runtimes; trace validation of recorded runs",
+)
 NOT_YET = {}
 
 checks = []
